@@ -1,0 +1,28 @@
+//go:build verif
+
+// Verification contracts (comments only; compiled only with -tags verif).
+// Checked by /verif/bin/govc; see /verif/DESIGN.md.
+
+package standard
+
+//@ // entry k of the payload is the subscription of (slot, committee) with the stored information
+//@ spec func subFor(sub *apiv1.BeaconCommitteeSubscription, info *beaconcommitteesubscriber.Subscription, sl phase0.Slot, ci phase0.CommitteeIndex) bool = sub != nil && sub.Slot == sl && sub.CommitteeIndex == ci && sub.ValidatorIndex == info.Duty.ValidatorIndex && sub.CommitteesAtSlot == info.Duty.CommitteesAtSlot && sub.IsAggregator == info.IsAggregator
+//@
+//@ func (*Service).Subscribe$1
+//@   thread
+//@   ghost where (Array Int (Array Int Int))
+//@   at call append#1: ghost where[slot][committeeIndex] = len(subscriptions)
+//@   requires s != nil && s.submitter != nil
+//@   requires forall sl phase0.Slot, ci phase0.CommitteeIndex :: in(subscriptionInfo, sl) && in(subscriptionInfo[sl], ci) ==> subscriptionInfo[sl][ci] != nil && subscriptionInfo[sl][ci].Duty != nil
+//@   loop 1
+//@     invariant forall k int :: 0 <= k && k < len(subscriptions) ==> subscriptions[k] != nil && subscriptions[k].Slot > currentSlot && in(subscriptionInfo, subscriptions[k].Slot) && in(subscriptionInfo[subscriptions[k].Slot], subscriptions[k].CommitteeIndex) && subFor(subscriptions[k], subscriptionInfo[subscriptions[k].Slot][subscriptions[k].CommitteeIndex], subscriptions[k].Slot, subscriptions[k].CommitteeIndex)
+//@     invariant forall sl phase0.Slot, ci phase0.CommitteeIndex :: visited(1, sl) && sl > currentSlot && in(subscriptionInfo[sl], ci) ==> 0 <= where[sl][ci] && where[sl][ci] < len(subscriptions) && subscriptions[where[sl][ci]].Slot == sl && subscriptions[where[sl][ci]].CommitteeIndex == ci
+//@   loop 2
+//@     invariant slot > currentSlot && in(subscriptionInfo, slot) && slotInfo == subscriptionInfo[slot] && visited(1, slot)
+//@     invariant forall k int :: 0 <= k && k < len(subscriptions) ==> subscriptions[k] != nil && subscriptions[k].Slot > currentSlot && in(subscriptionInfo, subscriptions[k].Slot) && in(subscriptionInfo[subscriptions[k].Slot], subscriptions[k].CommitteeIndex) && subFor(subscriptions[k], subscriptionInfo[subscriptions[k].Slot][subscriptions[k].CommitteeIndex], subscriptions[k].Slot, subscriptions[k].CommitteeIndex)
+//@     invariant forall sl phase0.Slot, ci phase0.CommitteeIndex :: ((visited(1, sl) && sl != slot) || (sl == slot && visited(2, ci))) && sl > currentSlot && in(subscriptionInfo[sl], ci) ==> 0 <= where[sl][ci] && where[sl][ci] < len(subscriptions) && subscriptions[where[sl][ci]].Slot == sl && subscriptions[where[sl][ci]].CommitteeIndex == ci
+//@   // C14: the payload has an entry for every (slot, committee) with a duty in a future slot, and nothing else
+//@   at call SubmitBeaconCommitteeSubscriptions#1: assert forall sl phase0.Slot, ci phase0.CommitteeIndex :: in(subscriptionInfo, sl) && sl > currentSlot && in(subscriptionInfo[sl], ci) ==> exists k int :: 0 <= k && k < len(arg1) && arg1[k] != nil && arg1[k].Slot == sl && arg1[k].CommitteeIndex == ci
+//@   at call SubmitBeaconCommitteeSubscriptions#1: assert forall k int :: 0 <= k && k < len(arg1) ==> arg1[k] != nil && arg1[k].Slot > currentSlot && in(subscriptionInfo, arg1[k].Slot) && in(subscriptionInfo[arg1[k].Slot], arg1[k].CommitteeIndex) && subFor(arg1[k], subscriptionInfo[arg1[k].Slot][arg1[k].CommitteeIndex], arg1[k].Slot, arg1[k].CommitteeIndex)
+//@   // ... and it is submitted whatever slots of the epoch lie in the past
+//@   exit calls(SubmitBeaconCommitteeSubscriptions) == 1
